@@ -947,6 +947,10 @@ def gen_c10(T, tier, seed, budget, out: Outcome):
         go(s)
     go("C/(1-" + "1" * 4301 + ")")
     go("C2/(1-2)/(1:mass=" + "9" * 5000 + ")")
+    # an over-long numeral in every other index / value position (each goes through its own conversion)
+    go("C2H6/(" + "1" * 4301 + "-1)")
+    go("C2H6/(1-2)(2-" + "3" * 4301 + ")")
+    go("C2/(1-2)/(" + "1" * 4301 + ":mass=2)")
     go("/")
     # sentences with an empty sum formula: every index they mention is out of range
     for t in ["//", "//(1:mass=2)", "//(1:rad=3)", "//(1:mass=2,rad=1)", "//(1:mass=2)(1:rad=1)", "/(1-2)", "/(1-2)/(1:mass=2)", "//(2:mass=2)", "H//(2:mass=2)", "H//(1:mass=2)"]:
@@ -1643,6 +1647,18 @@ def probe_v5(tier, seed):
                     bad.append(f"float() does not ignore leading blanks: {pad + tok!r}")
             except ValueError:
                 bad.append(f"float({pad + tok!r}) raises")
+    # the rejecting half of FloatIgnoresBlanks: a padded token is rejected iff the bare token is
+    for tok in ["", "1.5x", "abc", "--1", "1 2", "1,5", ".", "-", "1e", "0x10", "1_0", "nan", "inf", "\t1", "1\n"]:
+        for pad in ("", " ", "      "):
+            def acc(t):
+                try:
+                    float(t)
+                    return True
+                except ValueError:
+                    return False
+            evals += 1
+            if acc(pad + tok) != acc(tok):
+                bad.append(f"float() accepts exactly one of {tok!r} and {pad + tok!r}")
     return {"probe": "V5", "evaluations": evals, "failures": bad[:3], "bound": "random finite doubles incl. raw bit patterns, subnormals, ±0, 1e300; blank-padded renderings of each (float ignores leading blanks)"}
 
 
